@@ -212,6 +212,21 @@ func (in *Interp) mathUF1(name string, x *term.Term) *term.Term {
 		if name == "Log" && x.Op == "uf" && x.Name == "E" && len(x.Args) == 1 {
 			return x.Args[0] // log(exp(t)) = t
 		}
+		if name == "Log1p" {
+			// one head for logarithms: log1p(w) = log(1 + w)
+			return in.mathUF1("Log", term.Fadd(c(1), x))
+		}
+		if name == "Log" && (x.Op == "fdiv" || x.Op == "fmul") && !x.Args[0].IsConst() && !x.Args[1].IsConst() {
+			// log of a quotient / product of positive factors (interior of the
+			// domain: both factors are arguments of a logarithm elsewhere or
+			// assumed positive by the harness)
+			in.stubsSeen["math.Log(a/b)=Log a-Log b, a,b>0"]++
+			l, r := in.mathUF1("Log", x.Args[0]), in.mathUF1("Log", x.Args[1])
+			if x.Op == "fdiv" {
+				return term.Fsub(l, r)
+			}
+			return term.Fadd(l, r)
+		}
 		switch name {
 		case "Exp":
 			in.addFact(u, term.Flt(c(0), u))
@@ -380,8 +395,10 @@ func extPow(in *Interp, fn *ssa.Function, a []Value) Value {
 			}
 			return r
 		}
-		in.facts[u.ID] = append(in.facts[u.ID], term.True)
-		return u
+		// x^y = exp(y log x) on the interior of the domain (x > 0): under the
+		// exp-homomorphism x^(y-1), x^(y-2) and x^y become E(y log x) / x^k
+		in.stubsSeen["math.Pow(x,y)=exp(y log x), x>0"]++
+		return in.expOf(term.Fmul(y, in.mathUF1("Log", x)))
 	}
 	if y.IsConst() && (y.F == 0.5 || y.F == -0.5) {
 		// Go's math.Pow returns Sqrt(x) resp. 1/Sqrt(x) for these exponents
@@ -599,6 +616,22 @@ func (in *Interp) expOf(t *term.Term) *term.Term {
 				}
 				return r
 			}
+		}
+		// (a +- b) c: distribute, so that x^(y-1) = x^y / x
+		for i := 0; i < 2; i++ {
+			s, c := t.Args[i], t.Args[1-i]
+			if s.Op == "fadd" || s.Op == "fsub" {
+				l := in.expOf(term.Fmul(s.Args[0], c))
+				r := in.expOf(term.Fmul(s.Args[1], c))
+				if s.Op == "fadd" {
+					return term.Fmul(l, r)
+				}
+				return term.Fdiv(l, r)
+			}
+		}
+		// canonical factor order for the atom E(a*b)
+		if t.Args[0].ID > t.Args[1].ID {
+			return in.expAtom(term.Fmul(t.Args[1], t.Args[0]))
 		}
 	case "uf":
 		if len(t.Args) == 1 {
